@@ -120,6 +120,22 @@ def gen_history(rng, hid, confirm=False):
                              "permute": (b > 0 and rng.random() < 0.5),
                              # the other documented entry point of an append: ParquetFile.write_row_groups
                              "via": ("write_row_groups" if (b > 0 and not h["index"] and rng.random() < 0.3) else "write")})
+    if not confirm and rng.random() < 0.35:
+        # the dataset is created under another has_nulls mode: columns are REQUIRED (no definition levels); floats and times keep NaN / NaT
+        # as sentinel VALUES there, and the FIRST missing value of such a column arrives in a LATER append - every row, old and new, must
+        # read back (columns that cannot hold a sentinel get no missing values: refusing those is C18's subject)
+        mode = rng.choice([False, "infer", "list", "list"])
+        names = [c["name"] for c in cols]
+        h["has_nulls"] = mode if mode != "list" else rng.sample(names, rng.randrange(0, len(names)))
+        for c in cols:
+            required = (mode is False) or (mode == "infer" and c["kind"] not in ("str", "bytes", "json", "obj_int", "obj_bool")) or \
+                       (mode == "list" and c["name"] not in h["has_nulls"])
+            if not required:
+                continue
+            sentinel = c["kind"] in SENTINEL_KINDS
+            for bi, b in enumerate(h["batches"]):
+                e = b["cols"][c["name"]]
+                e["nulls"] = "none" if (not sentinel or bi == 0) else rng.choice(["some", "first", "last", "all", "some", "none"])
     dtcols = [c for c in cols if c["kind"] in ("dt_ms", "dt_us", "dt_ns", "dttz_us", "dttz_ns")]
     if dtcols and not confirm and rng.random() < 0.5:
         # the same column in ANOTHER datetime unit in one appended batch: the library may refuse it (another dtype), but if it ACCEPTS
@@ -154,6 +170,7 @@ def gen_history(rng, hid, confirm=False):
     return h
 
 
+SENTINEL_KINDS = ("float32", "float64", "dt_ms", "dt_us", "dt_ns", "dttz_us", "dttz_ns", "td_us", "td_ns")
 FAULT_SHARE = 0.12
 FAULT_CAP = 60
 FAULT_VARIANTS = {"open": ["pre", "post"], "write": ["pre", "short", "post"], "close": ["post"], "mkdir": ["pre"], "ropen": ["pre"], "read": ["pre", "post"]}
@@ -227,6 +244,8 @@ def write_kw(h, i):
         kw["row_group_offsets"] = b["row_group_offsets"]
     if h["index"]:
         kw["write_index"] = True
+    if "has_nulls" in h:
+        kw["has_nulls"] = h["has_nulls"]
     oe = {c["name"]: OBJENC_KINDS[c["kind"]] for c in h["cols"] if c["kind"] in OBJENC_KINDS}
     if oe:
         kw["object_encoding"] = dict({c["name"]: "infer" for c in h["cols"]}, **oe)
@@ -625,6 +644,7 @@ def run_history(arg):
                         akw = dict(kw)
                         akw.pop("write_index", None)
                         akw.pop("object_encoding", None)        # the stored schema decides on append
+                        akw.pop("has_nulls", None)
                         if use_handle:
                             if handle is None:
                                 handle = ParquetFile(target)      # opened once; every later append and read-in-between uses it
@@ -872,6 +892,7 @@ def run(ctx):
         if h.get("handle_from") is not None:
             ctx.count("appends_through_one_reused_handle", sum(1 for st in res["steps"] if st.get("via_handle")))
         ctx.count("appends", len(h["batches"]) - 1)
+        ctx.count("has_nulls_mode", "list" if isinstance(h.get("has_nulls"), list) else str(h.get("has_nulls", True)))
         ctx.count("history_outcome", res["outcome"] + ("(confirmation stream)" if h["confirm"] else ""))
         for c in h["cols"]:
             ctx.count("kind", c["kind"])
